@@ -22,11 +22,12 @@ type Req struct {
 	Time      string         `json:"time"`
 	Name      string         `json:"name"` // label / tag / trace id path element
 	Result    sqlfake.Result `json:"result"`
-	CancelUs  int64          `json:"cancel_us"` // >0: the client goes away after that long
-	WriteUs   int64          `json:"write_us"`  // delay of the client per response chunk
-	ThinkUs   int64          `json:"think_us"`  // before the request
-	NoDB      bool           `json:"no_db"`     // registry has no session for this request
-	TailMs    int64          `json:"tail_ms"`   // Tail: how long the consumer reads before closing
+	CancelUs  int64          `json:"cancel_us"`         // >0: the client goes away after that long
+	WriteUs   int64          `json:"write_us"`          // delay of the client per response chunk
+	ThinkUs   int64          `json:"think_us"`          // before the request
+	NoDB      bool           `json:"no_db"`             // registry has no session for this request
+	TailMs    int64          `json:"tail_ms"`           // Tail: how long the consumer reads before closing
+	Mutated   bool           `json:"mutated,omitempty"` // the query text went through mutate(): it may be invalid
 }
 
 // Scenario of the reader simulation.
@@ -319,6 +320,7 @@ func genReq(rt *rapid.T, l string, faulty bool) Req {
 	r.Direction = rapid.SampledFrom([]string{"", "forward", "backward", "x"}).Draw(rt, l+".dir")
 	if rapid.IntRange(0, 4).Draw(rt, l+".mutq") == 0 {
 		r.Query = mutate(rt, l+".m", r.Query)
+		r.Mutated = true
 	}
 	r.Result = genResult(rt, l+".res", faulty)
 	if (r.Kind == "search" || strings.HasPrefix(r.Kind, "tag")) && rapid.IntRange(0, 2).Draw(rt, l+".complex") == 0 {
@@ -327,7 +329,7 @@ func genReq(rt *rapid.T, l string, faulty bool) Req {
 		r.Result.Complexity = int64(rapid.IntRange(2, 4).Draw(rt, l+".portions"))*10000000 - 1
 	}
 	if faulty && (r.Kind == "trace" || r.Kind == "trace_json" || r.Kind == "search") {
-		r.Result.TraceShape = rapid.SampledFrom([]int{0, 0, 1, 2, 3}).Draw(rt, l+".traceshape")
+		r.Result.TraceShape = rapid.SampledFrom([]int{0, 0, 1, 2, 3, 4}).Draw(rt, l+".traceshape")
 	}
 	switch r.Kind {
 	case "labels", "label_values", "prom_labels", "prom_label_values", "tags", "tag_values", "tags_v2", "tag_values_v2", "series", "prom_series":
